@@ -100,3 +100,103 @@ Proof.
     repeat (apply andb_true_iff in H; destruct H as [H ?]).
     split; [lia|]. exists 64811. lia.
 Qed.
+
+(* ====================================================================================================
+   Whole-run statements (Proofs/SeqWalk.v).  The specification is a walk over the event trace of the run that knows
+   nothing of the tracer state.  [seq_walk c rs q ev]: rs = first sequence number of the round in progress, q = the
+   number the next probe must carry; a send carries exactly q, with rs <= q, q - rs < 512 and q < 65535, and is
+   followed by q + 1; a publication reports exactly q - rs <= 512 slots, its round started in
+   [initial_sequence, max_seq), and the next round starts at q - or at the initial sequence when q has reached the
+   maximum sequence of the configuration.  [sep_walk prev cur ev]: no send carries a number used in the round published
+   last (prev) or already used in its own round (cur).  [round_numbering S r]: the sends S of a published round r are
+   at most 512, numbered consecutively below 65536 - so none reaches 65535 -, one slot each.
+   ==================================================================================================== *)
+From TV Require Import Proofs.RoundHistory Proofs.RunSemantics Proofs.SeqWalk.
+
+(* every run, of any length, whatever the environment does: the sequence numbers handed to the network follow the walk
+   from the initial sequence; consequently every published round numbers at most 512 probes, consecutively, no wrap *)
+Theorem c07_run_sequence_walk : forall c t0 is, Accept c ->
+  let '(ev, o, sf) := run c t0 is in
+  seq_walk c (initial_sequence c) (initial_sequence c) ev /\
+  Forall (fun x => round_numbering (fst x) (snd x)) (segs [] ev).
+Proof. exact run_seq_walk. Qed.
+
+(* every run (ICMP and UDP): a sequence number used in the immediately preceding round is never used in the current one,
+   and no number is used twice within a round *)
+Theorem c07_run_separation : forall c t0 is, Accept c -> proto c <> Tcp ->
+  let '(ev, o, sf) := run c t0 is in sep_walk [] [] ev.
+Proof. exact run_sep_walk. Qed.
+
+(* every run, Dublin over IPv6: the payload length derived from the sequence of every probe handed to the network
+   (sequence - initial sequence, plus 6 magic octets) fits the 976-octet payload buffer *)
+Theorem c07_run_dublin_payload_fits : forall c t0 is, Accept c -> proto c = Udp -> multipath c = Dublin ->
+  is_v6 (target_addr c) = true ->
+  let '(ev, o, sf) := run c t0 is in
+  Forall (fun p => 0 <= p_sequence p - initial_sequence c /\ p_sequence p - initial_sequence c + 6 <= 976) (ev_probes ev).
+Proof. exact run_dublin_payload. Qed.
+
+(* the TCP capacity error path of one loop iteration.
+   (a) the budget of 512 numbers is used up when the iteration starts and a probe is due: the iteration is the capacity
+       error, nothing is sent, the state - every slot - is untouched *)
+Theorem c07_capacity_error_at_start : forall c s i, Inv c s -> proto c = Tcp -> can_send c s = Ok true ->
+  sequence s - round_sequence s = 512 -> step c s i = Ok (s, [], Some EInsufficientCapacity).
+Proof. exact capacity_error_at_start. Qed.
+
+(* (b) the probe that takes the last number of the budget (slot 511) meets address-in-use: it was handed to the network
+       once, there is no re-issue into slot 512, the iteration ends with the capacity error *)
+Theorem c07_capacity_error_after_send : forall c s i rest, Accept c -> Inv c s -> proto c = Tcp -> can_send c s = Ok true ->
+  sequence s - round_sequence s = 511 -> i_sends i = AddressInUseO :: rest ->
+  exists p s1, next_probe c s (hd_clock (i_clock i) (round_start s)) = Ok (p, s1) /\
+    sequence s1 - round_sequence s1 = 512 /\
+    step c s i = Ok (s1, [ESend p AddressInUseO], Some EInsufficientCapacity).
+Proof. exact capacity_error_after_send. Qed.
+
+(* (c) conversely: unless the environment injected that very error value, an iteration ends with the capacity error only
+       for TCP and only when all 512 numbers of the round are used (buffer of 512 slots intact, nothing published) *)
+Theorem c07_capacity_error_only_when_exhausted : forall c s i s' ev, Accept c -> Inv c s ->
+  step c s i = Ok (s', ev, Some EInsufficientCapacity) ->
+  ~ In (FatalS EInsufficientCapacity) (i_sends i) -> i_recv i <> FatalR EInsufficientCapacity ->
+  proto c = Tcp /\ sequence s' - round_sequence s' = 512 /\ length (buffer s') = 512%nat /\ pubs ev = [].
+Proof. exact step_capacity_error. Qed.
+
+(* non-vacuity: 512 consecutive address-in-use outcomes in the first iteration of a TCP trace use up the budget: 512
+   probes are handed to the network, numbered consecutively from the initial sequence, and the run ends with the
+   capacity error; with 511 the round is full and the next iteration that wants to send is the error of (a) *)
+Definition c07_cfg_tcp : scfg :=
+  {| target_addr := [1;2;3;4]; proto := Tcp; trace_identifier := 0; max_rounds := Some 2;
+     first_ttl := 1; max_ttl := 4; grace_duration := 100; max_inflight := 24;
+     initial_sequence := 33434; multipath := Classic; port_direction := FixedDest 80;
+     min_round_duration := 1000; max_round_duration := 1000 |}.
+Definition c07_it (sends : list send_outcome) (u : Z) : iter_in :=
+  {| i_clock := [u]; i_sends := sends; i_recv := Timeout; i_update := u; i_advance := u |}.
+
+Example c07_capacity_example :
+  Accept c07_cfg_tcp /\
+  (let '(ev, o, sf) := run c07_cfg_tcp 0 [c07_it (repeat AddressInUseO 512) 10; c07_it [] 5000] in
+   o = Failed_with EInsufficientCapacity /\ map p_sequence (ev_probes ev) = zrange 33434 512 /\
+   sequence sf - round_sequence sf = 512 /\ pubs ev = []) /\
+  (let '(ev, o, sf) := run c07_cfg_tcp 0 [c07_it (repeat AddressInUseO 511) 10; c07_it [Sent] 20; c07_it [] 5000] in
+   o = Failed_with EInsufficientCapacity /\ length ev = 512%nat /\ sequence sf - round_sequence sf = 512).
+Proof.
+  split; [split; [reflexivity|unfold cfg_wf; cbn; unfold u8, u16; lia]|].
+  split; vm_compute; (split; [reflexivity|]); split; try reflexivity. split; reflexivity.
+Qed.
+
+(* the walks are not vacuous: a trace that issues a number twice, skips one, or re-uses a number of the round published
+   last is rejected *)
+Definition c07_probe (q : Z) : probe :=
+  {| p_sequence := q; p_identifier := 0; p_src_port := 0; p_dest_port := 80; p_ttl := 1; p_round := 0; p_sent := 0; p_flags := 0 |}.
+Definition c07_round (n : nat) : round_rec := {| rr_probes := repeat Skipped n; rr_largest_ttl := 0; rr_reason := RoundTimeLimitExceeded |}.
+
+Example c07_walks_reject :
+  seq_walk c07_cfg_tcp 33434 33434 [ESend (c07_probe 33434) Sent; ESend (c07_probe 33435) Sent; EPublish (c07_round 2); ESend (c07_probe 33436) Sent] /\
+  ~ seq_walk c07_cfg_tcp 33434 33434 [ESend (c07_probe 33434) Sent; ESend (c07_probe 33434) Sent] /\
+  ~ seq_walk c07_cfg_tcp 33434 33434 [ESend (c07_probe 33434) Sent; ESend (c07_probe 33436) Sent] /\
+  ~ seq_walk c07_cfg_tcp 33434 33434 [ESend (c07_probe 33434) Sent; EPublish (c07_round 2)] /\
+  ~ seq_walk c07_cfg_tcp 33434 33434 [ESend (c07_probe 33434) Sent; EPublish (c07_round 1); ESend (c07_probe 33434) Sent] /\
+  sep_walk [] [] [ESend (c07_probe 7) Sent; EPublish (c07_round 1); ESend (c07_probe 8) Sent; EPublish (c07_round 1); ESend (c07_probe 7) Sent] /\
+  ~ sep_walk [] [] [ESend (c07_probe 7) Sent; EPublish (c07_round 1); ESend (c07_probe 7) Sent].
+Proof.
+  unfold c07_cfg_tcp, max_seq. cbn. repeat split; try lia; try tauto.
+  all: intros H; decompose [and] H; try lia; tauto.
+Qed.
